@@ -134,7 +134,7 @@ func exec(ops []string, o *vu.Out) {
 		if anyLabel(procLabels, func(l string) bool { return hasAce(l) && !isASCIIStr(l) }) {
 			o.Stat("region:non-ascii-payload")
 			if ae == nil {
-				o.Fail("idna-nonascii-alabel-payload-accepted", fmt.Sprintf("%s.ToASCII(%q) = %q, nil: an 'xn--' label with a non-ASCII payload is accepted", pr.name, x, a))
+				o.Fail("", fmt.Sprintf("%s.ToASCII(%q) = %q, nil: an 'xn--' label with a non-ASCII payload is accepted", pr.name, x, a))
 			}
 		}
 		if isASCIILower(x) {
